@@ -5,12 +5,14 @@ import (
 	"encoding/json"
 	"errors"
 	"fmt"
+	"sort"
 	"testing"
 	"time"
 
 	"pgregory.net/rapid"
 	"verif/internal/hx"
 	"verif/internal/model"
+	"verif/internal/rawc"
 	"verif/internal/ref9p"
 	"verif/internal/sched"
 	"verif/internal/script"
@@ -36,7 +38,15 @@ type Act struct {
 	Aname  string   `json:"aname,omitempty"`
 	Err    bool     `json:"err,omitempty"`
 	Hold   bool     `json:"hold,omitempty"` // hold the responder of this request at respond.queued until the next request is being processed
+	// Kind "version": a Tversion (tag NOTAG) sent at quiescence in mid-session,
+	// offering VMsize and the version string Ver ("" = the dialect in force).
+	VMsize uint32 `json:"vmsize,omitempty"`
+	Ver    string `json:"ver,omitempty"`
 }
+
+// errStop ends a case early without a verdict (the rest of it cannot be judged
+// by this property, e.g. after an Rversion announcing an msize below IOHDRSZ).
+var errStop = errors.New("stop")
 
 type Case struct {
 	Dotu     bool   `json:"dotu"`
@@ -106,7 +116,7 @@ func run(c *Case) error {
 	var holds []sched.Hold
 	for i := range c.Actions {
 		a := &c.Actions[i]
-		if a.Hold && i+1 < len(c.Actions) && !c.Actions[i+1].Raw && !a.Raw {
+		if a.Hold && i+1 < len(c.Actions) && !c.Actions[i+1].Raw && !a.Raw && a.Kind != "version" && c.Actions[i+1].Kind != "version" {
 			k := script.Key(ref9p.Canon(a.msg(i), c.Dotu))
 			k2 := script.Key(ref9p.Canon(c.Actions[i+1].msg(i+1), c.Dotu))
 			holds = append(holds, sched.Hold{Who: k, At: "respond.queued", UntilWho: k2, UntilPoint: "process.checked"},
@@ -118,6 +128,7 @@ func run(c *Case) error {
 		ctl.Timeout = 50 * time.Millisecond
 		defer sched.Install(ctl)()
 	}
+	note := ""
 	for i := range c.Actions {
 		a := &c.Actions[i]
 		if a.Raw {
@@ -126,9 +137,26 @@ func run(c *Case) error {
 			}
 			return nil // the connection may be gone
 		}
+		if a.Kind == "version" {
+			err := versionStep(s, a)
+			note = fmt.Sprintf(" [after Tversion msize %d at step %d; msize in force %d]", a.VMsize, i, s.M.Msize)
+			if err != nil {
+				if err == errStop {
+					return nil
+				}
+				return fmt.Errorf("step %d (version): %w", i, err)
+			}
+			continue
+		}
 		m := a.msg(i)
 		if m == nil {
 			return fmt.Errorf("harness: bad action %q", a.Kind)
+		}
+		if n := len(ref9p.Encode(m, s.C.Dotu)); uint64(n) > uint64(s.M.Msize) {
+			// the frame does not fit the msize in force (the server may drop the
+			// connection for it): not a case of this property
+			hx.ExtraAdd("skipped_oversize_frames", 1)
+			continue
 		}
 		var b script.Behav
 		if a.Err {
@@ -136,7 +164,7 @@ func run(c *Case) error {
 		}
 		before := s.MustNot
 		if _, err := s.Step(m, b); err != nil {
-			return fmt.Errorf("step %d (%s): %w", i, a.Kind, err)
+			return fmt.Errorf("step %d (%s): %w%s", i, a.Kind, err, note)
 		}
 		if s.MustNot > before {
 			hx.ExtraAdd("refused_steps", 1)
@@ -146,6 +174,90 @@ func run(c *Case) error {
 		ap, fo := ctl.Stats()
 		hx.ExtraAdd("holds_applied", int64(ap))
 		hx.ExtraAdd("holds_forced", int64(fo))
+	}
+	return nil
+}
+
+// versionStep sends a Tversion in mid-session, at quiescence (every earlier
+// request has been answered). The property does not say how a Tversion is to be
+// answered (that is C12); what matters here is the msize IN FORCE afterwards,
+// against which the count rules are judged: the one announced by the last
+// Rversion. A Tversion answered with Rerror was refused and changes nothing.
+// What an accepted Tversion does to the fids (9P: the session is reset; go9p
+// keeps them) is outside the statement: the fid table is re-read by probing.
+func versionStep(s *srvh.Session, a *Act) error {
+	ver := a.Ver
+	if ver == "" {
+		ver = "9P2000"
+		if s.C.Dotu {
+			ver = "9P2000.u"
+		}
+	}
+	r, err := s.C.Version(a.VMsize, ver)
+	if err != nil {
+		if err == rawc.ErrTimeout {
+			return &srvh.Hang{Msg: fmt.Sprintf("no reply to Tversion/%d/%s", a.VMsize, ver)}
+		}
+		return &srvh.Violation{Msg: fmt.Sprintf("Tversion/%d/%s: %v", a.VMsize, ver, err)}
+	}
+	switch r.Type {
+	case ref9p.Rerror:
+		hx.ExtraAdd("version_refused", 1)
+		if a.VMsize == model.IOHDRSZ-1 {
+			hx.ExtraAdd("version_refused_iohdrsz_minus_1", 1)
+		}
+		return nil // refused: the msize and the dialect in force stay
+	case ref9p.Rversion:
+		if r.Msize < model.IOHDRSZ {
+			hx.ExtraAdd("version_rversion_below_iohdrsz", 1)
+			return errStop // msize-IOHDRSZ is not defined; the negotiation itself is C12's
+		}
+		switch {
+		case r.Msize < s.M.Msize:
+			hx.ExtraAdd("version_lowered", 1)
+		case r.Msize == s.M.Msize:
+			hx.ExtraAdd("version_same_msize", 1)
+		default:
+			hx.ExtraAdd("version_raised", 1)
+		}
+		if s.C.Dotu != s.M.Dotu {
+			hx.ExtraAdd("version_dialect_changed", 1)
+		}
+		s.M.Msize, s.M.Dotu = s.C.Msize, s.C.Dotu // rawc adopted the Rversion
+		return resync(s)
+	}
+	return errStop
+}
+
+// resync asks, after an accepted Tversion, which fids of the model the server
+// still knows (unjudged Tstat probes): a fid answered "unknown fid" without
+// reaching the implementation was dropped by the renegotiation.
+func resync(s *srvh.Session) error {
+	var fids []uint32
+	for fid := range s.M.Fids {
+		fids = append(fids, fid)
+	}
+	sort.Slice(fids, func(i, j int) bool { return fids[i] < fids[j] })
+	S := s.Sh.Sv.S
+	for _, fid := range fids {
+		before := len(S.Log())
+		r, err := s.C.RPC(&ref9p.Msg{Type: ref9p.Tstat, Fid: fid})
+		if err != nil {
+			if err == rawc.ErrTimeout {
+				return &srvh.Hang{Msg: fmt.Sprintf("no reply to the Tstat probe of fid %d after an Rversion", fid)}
+			}
+			return &srvh.Violation{Msg: fmt.Sprintf("Tstat probe of fid %d after an Rversion: %v", fid, err)}
+		}
+		forwarded := false
+		for _, e := range S.Log()[before:] {
+			if e.Kind == "enter" {
+				forwarded = true
+			}
+		}
+		if r.Type == ref9p.Rerror && r.Ename == "unknown fid" && !forwarded {
+			delete(s.M.Fids, fid)
+			hx.ExtraAdd("version_dropped_fids", 1)
+		}
 	}
 	return nil
 }
@@ -294,12 +406,166 @@ func TestEnumStateRequestTable(t *testing.T) {
 	hx.Exhaustive("(fid state, request) table: states {absent, dir, dir-open, file, auth, file open with each of the 256 mode bytes} x requests {walk clone/by name/in place/onto a valid newfid, open with all 256 modes, create 8 perms x 8 modes, read 11 counts, write 5 counts + 5 malformed count/payload frames} x 2 dialects x AuthOps on/off (narrow request set for the 247 uninteresting open modes)")
 }
 
+// ---------------------------------------------------------------------------
+// count rules after Tversion steps in mid-session
+
+// ioRequests are reads and writes whose counts lie around the limit of the msize
+// in force (eff) and of the msize that was in force before (old), plus the
+// 32-bit extremes. Writes are only built when their frame fits eff.
+func ioRequests(eff, old uint32) []Act {
+	var rs []Act
+	seen := map[uint32]bool{}
+	add := func(kind string, c int64) {
+		if c < 0 || c > 0xFFFFFFFF {
+			return
+		}
+		if kind == "write" && c > int64(eff)-23 {
+			return
+		}
+		if kind == "read" {
+			if seen[uint32(c)] {
+				return
+			}
+			seen[uint32(c)] = true
+		}
+		rs = append(rs, Act{Kind: kind, Fid: 1, Count: uint32(c)})
+	}
+	for _, c := range []int64{0, 1, int64(eff) - 25, int64(eff) - 24, int64(eff) - 23, int64(old) - 24, int64(old) - 23, 8192 - 24, 8192 - 23, 100000, 1 << 31, 0xFFFFFFE8, 0xFFFFFFE9, 0xFFFFFFFF} {
+		add("read", c)
+	}
+	for _, c := range []int64{0, 1, int64(eff) - 25, int64(eff) - 24, int64(eff) - 23} {
+		add("write", c)
+	}
+	return rs
+}
+
+func TestEnumCountsAfterVersion(t *testing.T) {
+	const msize = 256
+	type vseq struct {
+		name  string
+		steps []uint32
+	}
+	var seqs []vseq
+	for v := int(model.IOHDRSZ) - 1; v >= 0; v-- { // IOHDRSZ-1 first: the refusal closest to an acceptable offer
+		seqs = append(seqs, vseq{"refused", []uint32{uint32(v)}})
+	}
+	for _, v := range []uint32{24, 25, 48, 100, msize - 1, msize, msize + 1, 8192, 0xFFFFFFFF} {
+		seqs = append(seqs, vseq{"accepted", []uint32{v}})
+	}
+	seqs = append(seqs, vseq{"lowered-then-refused", []uint32{100, 23}}, vseq{"refused-twice", []uint32{23, 23}}, vseq{"refused-then-lowered", []uint32{5, 64}},
+		vseq{"lowered-then-refused", []uint32{24, 23}}, vseq{"lowered-twice", []uint32{200, 64}}, vseq{"lowered-then-higher", []uint32{64, 200}}, vseq{"refused-then-same", []uint32{23, msize}})
+	fileOpen := func(m uint8) []Act {
+		return []Act{{Kind: "walk", Fid: 0, Newfid: 1, Names: []string{"f1"}}, {Kind: "open", Fid: 1, Mode: m}}
+	}
+	sts := []stateSpec{
+		{"file", []Act{{Kind: "walk", Fid: 0, Newfid: 1, Names: []string{"f1"}}}, true},
+		{"dir-open", []Act{{Kind: "walk", Fid: 0, Newfid: 1, Names: []string{"d1"}}, {Kind: "open", Fid: 1, Mode: 0}}, true},
+		{"file-open-0x00", fileOpen(0), true}, {"file-open-0x01", fileOpen(1), true}, {"file-open-0x02", fileOpen(2), true}, {"file-open-0x11", fileOpen(0x11), true},
+		{"auth", []Act{{Kind: "auth", Fid: 1, Afid: 1, User: "alice"}}, true},
+	}
+	idx, pairs, failed := 0, 0, 0
+	for _, dotu := range []bool{false, true} {
+		for _, auth := range []bool{false, true} {
+			for _, st := range sts {
+				if st.name == "auth" && !auth {
+					continue
+				}
+				for _, sq := range seqs {
+					idx++
+					if hx.NShards > 1 && idx%hx.NShards != hx.Shard {
+						continue
+					}
+					c := &Case{Dotu: dotu, Auth: auth, Msize: msize}
+					c.Actions = append(c.Actions, Act{Kind: "attach", Fid: 0, Afid: ref9p.NOFID, User: "alice"})
+					c.Actions = append(c.Actions, st.setup...)
+					eff := uint32(msize)
+					for _, v := range sq.steps {
+						old := eff
+						if v >= model.IOHDRSZ && v < eff {
+							eff = v
+						}
+						c.Actions = append(c.Actions, Act{Kind: "version", VMsize: v})
+						reqs := ioRequests(eff, old)
+						pairs += len(reqs)
+						c.Actions = append(c.Actions, reqs...)
+					}
+					hx.Label("counts after Tversion: " + sq.name)
+					hx.NonTrivial("version-counts", dotu, auth, st.name, sq.steps)
+					if err := execute("version-counts", c); err != nil {
+						hx.Violation("version-counts", c, err.Error())
+						t.Errorf("state %s dotu=%v auth=%v Tversion msizes %v: %v", st.name, dotu, auth, sq.steps, err)
+						if failed++; failed >= 3 {
+							t.FailNow()
+						}
+					}
+				}
+			}
+		}
+	}
+	hx.ExtraAdd("version_count_pairs", int64(pairs))
+	hx.Exhaustive("count rules after mid-session Tversion steps at quiescence: states {file, dir-open, file open 0x00/0x01/0x02/0x11, auth} x {one refused Tversion with each msize 0..23, one accepted with msize 24, 25, 48, 100, 255, 256, 257, 8192, 2^32-1, 7 two-step sequences} x reads (up to 14 counts around the limit in force, the former limit, the server's own limit and the 32-bit extremes) and writes (up to 5 counts) x 2 dialects x AuthOps on/off")
+}
+
+// ---------------------------------------------------------------------------
+// the authentication gate, for every kind of error value AuthCheck may refuse with
+
+func TestEnumAuthGate(t *testing.T) {
+	idx := 0
+	gate := append([]string{"deny", "denyplain-2", "denywrapped", "denyvalue-x", "den", "xdeny"}, anames...)
+	for _, dotu := range []bool{false, true} {
+		for _, auth := range []bool{false, true} {
+			for _, aname := range gate {
+				for _, afid := range []uint32{ref9p.NOFID, 1, 2, 0, 7} { // none, alice's auth fid, bob's auth fid, a file-tree fid, an unknown fid
+					for _, user := range []string{"alice", "bob"} {
+						idx++
+						if hx.NShards > 1 && idx%hx.NShards != hx.Shard {
+							continue
+						}
+						c := &Case{Dotu: dotu, Auth: auth, Msize: 256}
+						c.Actions = []Act{
+							{Kind: "attach", Fid: 0, Afid: ref9p.NOFID, User: "alice"},
+							{Kind: "auth", Fid: 1, Afid: 1, User: "alice"},
+							{Kind: "auth", Fid: 2, Afid: 2, User: "bob"},
+							{Kind: "attach", Fid: 3, Afid: afid, User: user, Aname: aname},
+							{Kind: "stat", Fid: 3}, {Kind: "walk", Fid: 3, Newfid: 4}, {Kind: "clunk", Fid: 3},
+							{Kind: "attach", Fid: 3, Afid: afid, User: user, Aname: aname}, // the same attach once more
+							{Kind: "stat", Fid: 3},
+							{Kind: "attach", Fid: 5, Afid: afid, User: user, Aname: "tree"}, // and one the check accepts
+							{Kind: "attach", Fid: 6, Afid: afid, User: user, Aname: aname},
+							{Kind: "stat", Fid: 6},
+						}
+						hx.Label(fmt.Sprintf("auth gate auth=%v", auth))
+						hx.NonTrivial("auth-gate", dotu, auth, aname, afid, user)
+						if err := execute("auth-gate", c); err != nil {
+							hx.Violation("auth-gate", c, err.Error())
+							t.Fatalf("dotu=%v auth=%v aname %q afid %d user %s: %v", dotu, auth, aname, afid, user, err)
+						}
+					}
+				}
+			}
+		}
+	}
+	hx.Exhaustive("authentication gate: anames {accepted: \"\", tree, den, xdeny; refused with *go9p.Error: deny, deny-me; with errors.New: denyplain, denyplain-2; with fmt.Errorf %w: denywrapped, denywrapped-key; with a value error type: denyvalue, denyvalue-x} x afid {NOFID, own auth fid, another user's auth fid, a file-tree fid, unknown} x 2 users x 2 dialects x AuthOps on/off, each attach sent three times with an accepted one in between")
+}
+
 var names = []string{"d1", "d2", "f1", "x1", "l1"}
 
+// anames: AuthCheck of the scripted implementation refuses every aname that
+// begins with "deny"; the rest of the name picks the dynamic type of the error
+// value (deny: *go9p.Error, denyplain: errors.New, denywrapped: fmt.Errorf with
+// %w, denyvalue: a non-pointer error type).
+var anames = []string{"", "tree", "deny-me", "denyplain", "denywrapped-key", "denyvalue"}
+
+// floorMsize is the smallest msize a history renegotiates down to: every frame
+// and every scripted answer of a history fits it.
+const floorMsize = 128
+
+// genAct draws one step; msize is the msize the generator expects to be in
+// force at that point (the counts are placed around its limit).
 func genAct(t *rapid.T, msize uint32) Act {
 	fidg := rapid.SampledFrom([]uint32{0, 1, 2, 3})
 	a := Act{}
-	a.Kind = rapid.SampledFrom([]string{"attach", "auth", "walk", "walk", "walk", "open", "open", "create", "create", "read", "write", "write", "stat", "wstat", "clunk", "remove"}).Draw(t, "kind")
+	a.Kind = rapid.SampledFrom([]string{"attach", "auth", "walk", "walk", "walk", "open", "open", "create", "create", "read", "read", "write", "write", "stat", "wstat", "clunk", "remove", "version"}).Draw(t, "kind")
 	a.Fid = fidg.Draw(t, "fid")
 	a.Err = rapid.IntRange(0, 5).Draw(t, "err") == 0
 	a.Hold = rapid.IntRange(0, 7).Draw(t, "hold") == 0
@@ -307,7 +573,19 @@ func genAct(t *rapid.T, msize uint32) Act {
 	case "attach":
 		a.Afid = rapid.OneOf(rapid.Just(uint32(ref9p.NOFID)), fidg).Draw(t, "afid")
 		a.User = rapid.SampledFrom([]string{"alice", "bob", "root", "mallory"}).Draw(t, "user")
-		a.Aname = rapid.SampledFrom([]string{"", "tree", "deny-me"}).Draw(t, "aname")
+		a.Aname = rapid.SampledFrom(anames).Draw(t, "aname")
+	case "version":
+		a.Fid, a.Err, a.Hold = 0, false, false
+		gens := []*rapid.Generator[uint32]{
+			rapid.SampledFrom([]uint32{model.IOHDRSZ - 1, model.IOHDRSZ - 1, model.IOHDRSZ - 2, 0, 1}), // refused, at the edge
+			rapid.Uint32Range(0, model.IOHDRSZ-1),                                                       // refused
+			rapid.SampledFrom([]uint32{msize, msize + 1, 8192, 65536, 0xFFFFFFFF}),                      // accepted, msize stays
+		}
+		if msize > floorMsize {
+			gens = append(gens, rapid.Uint32Range(floorMsize, msize-1), rapid.SampledFrom([]uint32{msize - 1, floorMsize})) // accepted, msize lowered
+		}
+		a.VMsize = rapid.OneOf(gens...).Draw(t, "vmsize")
+		a.Ver = rapid.SampledFrom([]string{"", "", "", "", "9P2000", "9P2000.u"}).Draw(t, "ver")
 	case "auth":
 		a.Afid = a.Fid
 		a.User = rapid.SampledFrom([]string{"alice", "bob", "mallory"}).Draw(t, "user")
@@ -329,14 +607,23 @@ func genAct(t *rapid.T, msize uint32) Act {
 
 func TestPropHistories(t *testing.T) {
 	hx.Check(t, "histories", hx.N(800, 8000), func(t *rapid.T) {
-		c := &Case{Dotu: rapid.Bool().Draw(t, "dotu"), Auth: rapid.Bool().Draw(t, "auth"), Msize: rapid.SampledFrom([]uint32{128, 256, 1024}).Draw(t, "msize")}
+		c := &Case{Dotu: rapid.Bool().Draw(t, "dotu"), Auth: rapid.Bool().Draw(t, "auth"), Msize: rapid.SampledFrom([]uint32{128, 256, 1024, 4096}).Draw(t, "msize")}
 		c.SrvMsize = rapid.SampledFrom([]uint32{0, 0, c.Msize, 65536}).Draw(t, "srvmsize")
+		cur := c.Msize // the msize the generator expects to be in force (the server's own is never smaller here)
 		n := rapid.IntRange(5, 40).Draw(t, "n")
 		if rapid.IntRange(0, 9).Draw(t, "prime") > 0 {
 			c.Actions = append(c.Actions, Act{Kind: "attach", Fid: 0, Afid: ref9p.NOFID, User: rapid.SampledFrom([]string{"alice", "bob"}).Draw(t, "u0")})
 		}
+		nver := 0
 		for i := 0; i < n; i++ {
-			c.Actions = append(c.Actions, genAct(t, c.Msize))
+			a := genAct(t, cur)
+			if a.Kind == "version" {
+				nver++
+				if a.VMsize >= model.IOHDRSZ && a.VMsize < cur {
+					cur = a.VMsize
+				}
+			}
+			c.Actions = append(c.Actions, a)
 		}
 		// classification by replaying on the model is done by the runner's counters
 		b, _ := json.Marshal(c)
@@ -348,6 +635,7 @@ func TestPropHistories(t *testing.T) {
 		}
 		hx.NonTrivial(b)
 		hx.Label(fmt.Sprintf("history dotu=%v auth=%v msize=%d", c.Dotu, c.Auth, c.Msize))
+		hx.Label(fmt.Sprintf("history with %d Tversion steps", min(nver, 4)))
 	})
 	_ = model.Must
 }
